@@ -53,12 +53,18 @@ def check_sort(prog, ctx):
     ok = isinstance(v, ast.BinOp) and isinstance(v.op, ast.Add) and isinstance(v.right, ast.BinOp) and isinstance(v.right.op, ast.Mult) \
         and src(v.left) == f"entries.get({src(acc[0].targets[0].slice)}, 0.0)"
     ctx.check(ok, rid, f, acc[0], src(acc[0]), "an element accumulates (sums) the contributions of all terms at its position")
-    phase = None
+    # the phase variable is the one negated inside the sort loop
+    negs = [a for a in ast.walk(lp) if isinstance(a, ast.Assign) and isinstance(a.value, ast.UnaryOp) and isinstance(a.value.op, ast.USub)
+            and src(a.value.operand) == src(a.targets[0])]
+    phase = src(negs[0].targets[0]) if negs else None
+    if phase is None:
+        inits = [a for a in ast.walk(f.node) if isinstance(a, ast.Assign) and src(a.value) == "1" and isinstance(a.targets[0], ast.Name)]
+        phase = src(inits[0].targets[0]) if inits else "phase"
     if ok:
         names = sorted([src(v.right.left), src(v.right.right)])
-        ctx.check("coeff" in names, rid, f, acc[0], src(v.right), "each contribution is the term's coefficient times the sort's phase")
-        phase = [n for n in names if n != "coeff"][0]
-    ctx.need(phase is not None, "phase variable not identified")
+        ctx.check(names == sorted(["coeff", phase]), rid, f, acc[0], src(v.right), "each contribution is the term's coefficient times the sort's phase")
+    else:
+        ctx.check(False, rid, f, acc[0], src(acc[0]), "each contribution is the term's coefficient times the sort's phase, added to the entry")
     rest = [s for s in lp.body if not (isinstance(s, ast.Assign) and isinstance(s.targets[0], ast.Name) and s.targets[0].id in loads)]
     nswap = nnoop = 0
     for (conds, stmts) in leaf_paths(rest):
